@@ -343,19 +343,20 @@ func BufferSnippet(b []byte) string {
 	return fmt.Sprintf("%q...%q", bStart, bEnd)
 }
 
-func normalizeHeaderValue(ov, ob []byte, headerLength int) (nv, nb []byte, nhl int) {
-	nv = ov
+// normalizeHeaderValue returns the value of a multi-line (obs-fold) header
+// with the line breaks removed. The result is built in a new buffer: ov
+// aliases the connection's read buffer, which must stay untouched so that the
+// bytes following the header and a retried parse see the original data.
+func normalizeHeaderValue(ov []byte) (nv []byte) {
 	length := len(ov)
 	if length <= 0 {
-		return
+		return ov
 	}
-	write := 0
-	shrunk := 0
+	nv = make([]byte, 0, length)
 	lineStart := false
 	for read := 0; read < length; read++ {
 		c := ov[read]
 		if c == '\r' || c == '\n' {
-			shrunk++
 			if c == '\n' {
 				lineStart = true
 			}
@@ -365,28 +366,9 @@ func normalizeHeaderValue(ov, ob []byte, headerLength int) (nv, nb []byte, nhl i
 		} else {
 			lineStart = false
 		}
-		nv[write] = c
-		write++
+		nv = append(nv, c)
 	}
-
-	nv = nv[:write]
-	copy(ob[write:], ob[write+shrunk:])
-
-	// Check if we need to skip \r\n or just \n
-	skip := 0
-	if ob[write] == '\r' {
-		if ob[write+1] == '\n' {
-			skip += 2
-		} else {
-			skip++
-		}
-	} else if ob[write] == '\n' {
-		skip++
-	}
-
-	nb = ob[write+skip : len(ob)-shrunk]
-	nhl = headerLength - shrunk
-	return
+	return nv
 }
 
 func stripSpace(b []byte) []byte {
